@@ -16,6 +16,17 @@ def vy_consts(**kw):
     return c
 
 
+def nq_consts(**kw):
+    c = {'MThreads': '<-Threads', 'AbsStep': '<-QStep', 'NT': 2, 'Cap': 1, 'PopRetries': 0, 'MaxNodes': 3, 'Progs': '<-ProgLost', 'SetupOps': 1,
+         'KeepFin': True, 'SecondLook': True}
+    c.update(kw)
+    return c
+
+
+NQ_ACTIONS = ['StartPush', 'StartPop', 'e_faa', 'e_ld', 'e_chk', 'e_cas', 'e_thr', 'e_sthr', 'd_thr', 'd_faa', 'd_ld', 'd_chk', 'd_for', 'd_cas', 'd_after',
+              'c_cas', 'd_fsube', 'd_fsub', 'p_tail', 'p_next', 'p_help', 'tp_deq', 'tp_enq', 'p_new', 'p_link', 'p_swing', 'q_head', 'q_deq1', 'q_thr',
+              'q_deq2', 'q_cas', 'q_take', 'q_done']
+INV_NQ = ['Linearizable', 'Conservation', 'ConservedAtEnd']
 MS_ACTIONS = ['StartPush', 'p_init', 'p_acqt', 'p_ldn', 'p_help', 'p_link', 'p_swing', 'StartPop', 'q_acqh', 'q_acqn', 'q_ldh', 'q_null', 'q_ldt',
               'q_help', 'q_cas', 'q_data', 'Destroy']
 VY_ACTIONS = ['StartPush', 'LdTo', 'u_seq', 'u_cas', 'u_pos2', 'u_deq', 'u_data', 'u_pub', 'StartPop', 'o_seq', 'o_cas', 'o_pos2', 'o_enq', 'o_data', 'o_pub']
@@ -32,6 +43,21 @@ def run_models(ctx, pid):
                            must_cover=MS_ACTIONS),
             lambda: tlc_mc(ctx, 'ms_toggle_nohelp', 'MSQueue', ms_consts(HelpTail=False), invariants=INV_MS, view='mcview', expect='violation'),
         ]
+        # nikolaev_queue over the bit-level SCQ rings: node hand-over, finalization, the second look of do_pop
+        jobs += [
+            lambda: tlc_mc(ctx, 'nq_stalled_push', 'NikolaevQueue', nq_consts(), invariants=INV_NQ, view='mcview', workers=6, must_cover=NQ_ACTIONS),
+            lambda: tlc_mc(ctx, 'nq_2push_2pop', 'NikolaevQueue', nq_consts(Progs='<-ProgPP', SetupOps=0), invariants=INV_NQ, view='mcview', workers=4),
+            lambda: tlc_mc(ctx, 'nq_toggle_catchup_drops_finalized', 'NikolaevQueue', nq_consts(KeepFin=False), invariants=INV_NQ, view='mcview',
+                           workers=4, expect='violation'),
+            lambda: tlc_mc(ctx, 'nq_toggle_no_second_look', 'NikolaevQueue', nq_consts(Progs='<-ProgPP', SetupOps=0, SecondLook=False), invariants=INV_NQ,
+                           view='mcview', workers=4, expect='violation'),
+        ]
+        if not q:
+            jobs += [lambda: tlc_mc(ctx, 'nq_mix', 'NikolaevQueue', nq_consts(Progs='<-ProgMix', SetupOps=0), invariants=INV_NQ, view='mcview', workers=8, tmo=1500),
+                     lambda: tlc_mc(ctx, 'nq_mix_cap2', 'NikolaevQueue', nq_consts(Progs='<-ProgMix', SetupOps=0, Cap=2), invariants=INV_NQ, view='mcview', workers=8, tmo=1500),
+                     lambda: tlc_mc(ctx, 'nq_retries', 'NikolaevQueue', nq_consts(PopRetries=1), invariants=INV_NQ, view='mcview', workers=8, tmo=1500),
+                     lambda: tlc_mc(ctx, 'nq_3t', 'NikolaevQueue', nq_consts(NT=3, Progs='<-Prog3', SetupOps=0, MaxNodes=4), invariants=INV_NQ, view='mcview',
+                                    workers=12, tmo=3000, heap='24g')]
         if not q:
             jobs += [lambda: tlc_mc(ctx, 'ms_2t_2push2pop', 'MSQueue', ms_consts(NNodes=4, MaxPush=2, MaxPop=2), invariants=INV_MS, view='mcview', workers=8, tmo=1500),
                      lambda: tlc_mc(ctx, 'ms_3t', 'MSQueue', ms_consts(NT=3, NNodes=4, MaxPush=1, MaxPop=1), invariants=INV_MS, view='mcview', workers=12,
